@@ -124,6 +124,8 @@ def site(meta):
         s += '/%d' % ((modrm >> 3) & 7)
         if m == '1' and 0xd8 <= op <= 0xdf and modrm >= 0xc0:
             s += ' rm=%d' % (modrm & 7) if op in (0xd9, 0xda, 0xdb, 0xde, 0xdf) else ''
+    if 0x9b in pfx:
+        s += ' after=9b'       # fwait in front of an x87 opcode (the wait forms finit/fstsw/fstcw/fclex/fstenv/fsave): C10 only
     sel = sorted(set(p for p in pfx if p in (0x66, 0x67, 0xf2, 0xf3)))     # only these change what the opcode means
     if sel:
         s += ' pfx=' + '.'.join('%02x' % p for p in sel)
